@@ -2,6 +2,7 @@
 from ..common import hx
 from .. import registry
 from .gens import key_for, blocks_for
+from .conf import SHAPES
 
 RULE = ("the same operation lines (same seed) are executed by the harness built in every configuration of the matrix and "
         "the outputs compared pairwise between the real builds and against the model; lines = single-block enc/dec and "
@@ -34,7 +35,7 @@ def run(chk, tier):
                 ops.append(f"{d} {e['name']} {hx(k)} {hx(b)}")
                 if hot and i % 2 == 0:
                     nb = 1 + r.below(24)
-                    ops.append(f"{d}s {e['name']} inplace 0 {hx(k)} {hx(blocks_for(r, e, nb))}")
+                    ops.append(f"{d}s {e['name']} {SHAPES[(i // 2) % 3]} {r.below(16)} {hx(k)} {hx(blocks_for(r, e, nb))}")
     for op in ops:
         t = op.split(" ")
         chk.case((t[1], t[-2], t[-1][:64]), nontrivial=set(t[-2]) != {"0"}, sample=op[:200] if r.below(500) == 0 else None)
